@@ -247,6 +247,29 @@ def run_structs(args):
     return p
 
 
+def run_freeform(args):
+    """free-form programs (mc.gen.freeform) x data patterns: whatever the decoder reads, the four renderings must carry it"""
+    from mc.gen import freeform as F
+    progs, patterns, envs = args
+    p = Partial()
+    for name, descs in progs:
+        p.n['nodes'] += 1
+        for pat in patterns:
+            for nsub, comp in envs:
+                b = F.build(descs, pat, nsub, comp)
+                p.n['exec'] += 1
+                p.n['edges'] += 1
+                r = four_formats(b)
+                if r and r[0] == 'skip':
+                    p.n['undecodable'] += 1
+                    continue
+                p.outcome((name.split('|')[0], nsub, comp))
+                if r:
+                    p.violation('%s|freeform|%s' % (r[0], name.split('|')[0]),
+                                {'name': name, 'descs': descs, 'pattern': pat, 'nsub': nsub, 'compressed': comp}, r[1], observed=b)
+    return p
+
+
 def dnp_structs():
     """221YYY spans that cover operators, replications and sequences (not only plain elements).  Which descriptors FM-94
     wants counted is not judged here: the renderings only have to agree with the implementation's own flat result."""
@@ -330,6 +353,10 @@ def run_cli_part(_):
 
 
 def replay(part, case):
+    if part.startswith('freeform'):
+        from mc.gen import freeform as F
+        r = four_formats(F.build(case['descs'], case['pattern'], case['nsub'], case['compressed']))
+        return [{'sig': '%s|freeform|%s' % (r[0], case['name'].split('|')[0]), 'detail': r[1]}] if r and r[0] != 'skip' else []
     if part == 'corpus':
         from mc.gen.corpus import TESTS, scan
         m = scan(open(os.path.join(TESTS, case['file']), 'rb').read())[case['index']]
@@ -386,6 +413,22 @@ def main(tier, seed):
                                ('data-not-present-spans-c2', dnp_structs(), dict(nsub=2, compressed=True, ambiguous_ok=True))):
         p = merge_all(run_shards(run_structs, [(s, env) for s in split(structs, 64)]))
         rep.add_part(name, p, bounds=dict(structures=len(structs), **env))
+    from mc.gen import freeform as F
+    if tier == 'quick':
+        ff = [('freeform-operators', F.operator_programs(3, 2) + F.focused_programs(5, 2), [0, 3, 5], [(1, False), (2, True)]),
+              ('freeform-markers', F.marker_programs(3, 2) + F.marker_programs(3, 2, extra_leaves=(), base='B'), [0, 3, 5],
+               [(1, False), (2, False)])]
+    else:
+        ff = [('freeform-operators', F.operator_programs(4, 2) + F.focused_programs(6, 3), [0, 2, 3, 4, 5],
+               [(1, False), (2, False), (2, True)]),
+              ('freeform-markers', F.marker_programs(4, 3) + F.marker_programs(4, 3, base='B'), [0, 2, 3, 4, 5],
+               [(1, False), (2, False), (2, True)])]
+    for name, progs, pats, envs in ff:
+        p = merge_all(run_shards(run_freeform, [(s_, pats, envs) for s_ in split(progs, 128)]))
+        p.sample({'program': progs[len(progs) // 2][0], 'descs': progs[len(progs) // 2][1]})
+        rep.add_part(name, p, bounds={'programs': len(progs), 'patterns': [F.PATTERNS[i][0] for i in pats], 'envelopes': envs,
+                                      'grammar': 'mc.gen.freeform: nested 204, operators over class 31, markers in loops ... '
+                                                 '(outside the reference envelope; the flat JSON is the base line)'})
     msgs = list(corpus.messages(max_bytes=6000 if tier == 'quick' else None))
     p = merge_all(run_shards(run_corpus, split(msgs, 64)))
     p.n['nodes'], p.n['edges'] = p.n['exec'] + 1, p.n['exec']
